@@ -136,9 +136,9 @@ def name_kinds(fmt, repair):
     return base
 
 
-def unique_names(rng, k, fmt, repair, taken):
+def unique_names(rng, k, fmt, repair, taken, plain=False):
     out = []
-    kinds = name_kinds(fmt, repair)
+    kinds = ["plain"] if plain else name_kinds(fmt, repair)
     while len(out) < k:
         n = rand_name(rng, rng.choice(kinds), fmt)
         if fmt == "MPS" and (n.startswith("$") or n.startswith("*")):
@@ -194,15 +194,15 @@ def rand_bounds(rng, big=False):
     return F(0), F(0)
 
 
-def gen_problem(rng, fmt="LP", repair=True, big=True, ncols=None, nrows=None, ints=True, name=None):
+def gen_problem(rng, fmt="LP", repair=True, big=True, ncols=None, nrows=None, ints=True, name=None, plain=False):
     """problem by name covering the shapes listed in C08/C09; every column has a non-zero somewhere, >= 1 non-empty row"""
     n = ncols or rng.choice([1, 2, 3, 4, 5, 8, 8, 12] + ([60] if rng.random() < 0.15 else []))
     if n >= 60:
         big = False
     m = nrows or rng.choice([1, 2, 3, 4, 6])
     taken = set()
-    cn = unique_names(rng, n, fmt, repair, taken)
-    rn = unique_names(rng, m, fmt, repair, taken)
+    cn = unique_names(rng, n, fmt, repair, taken, plain)
+    rn = unique_names(rng, m, fmt, repair, taken, plain)
     cols = []
     for j in range(n):
         lo, up = rand_bounds(rng, big)
@@ -241,7 +241,7 @@ def gen_problem(rng, fmt="LP", repair=True, big=True, ncols=None, nrows=None, in
 
 def small_problem(rng, n=None, m=None, name="s"):
     """small LP with plain names (C14 / C19)"""
-    return gen_problem(rng, "LP", repair=False, big=False, ncols=n or rng.randint(1, 5), nrows=m or rng.randint(1, 4), ints=False, name=name)
+    return gen_problem(rng, "LP", repair=False, big=False, ncols=n or rng.randint(1, 5), nrows=m or rng.randint(1, 4), ints=False, name=name, plain=True)
 
 
 def magnitude_ok(P, lo=F(1, 10 ** 40), hi=F(10 ** 40)):
@@ -834,3 +834,31 @@ SMALL_LP2 = "Problem p\nMinimize\n 2 a - b\nSubject To\n a + b >= 1 \\ note\n r:
 SMALL_MPS = ("NAME t\nROWS\n N obj\n L c1\n G c2\n E c3\nCOLUMNS\n MARKER1 'MARKER' 'INTORG'\n x obj 3 c1 1\n x c2 1\n MARKER2 'MARKER' 'INTEND'\n"
              " y obj 2 c1 1\n y c2 -1/3 c3 1\nRHS\n RHS c1 4 c2 -2\n RHS c3 1\nRANGES\n RNG c1 2\nBOUNDS\n UP BND x 3\n MI BND y\n UP BND y 5.5\nENDATA\n")
 SMALL_BAS = "NAME t\n XU x c1\n XL y c2\n UL z\nENDATA\n"
+
+
+def feasible_problem(rng, name="f"):
+    """small LP with plain names built around a point (so it is feasible); boxed columns make the optimum finite"""
+    P = small_problem(rng, name=name)
+    cols, xs = [], {}
+    for (cn, o, lo, up, it) in P["cols"]:
+        lo = F(rng.randint(-4, 2))
+        up = lo + rng.randint(0, 6)
+        if rng.random() < 0.25:
+            lo, up = (NINF, up) if rng.random() < 0.5 else (lo, INF)        # some one-sided ones: may be unbounded
+        a = lo if lo != NINF else up - 3
+        b = up if up != INF else a + 3
+        xs[cn] = a + (b - a) * F(rng.randint(0, 4), 4)
+        cols.append((cn, o, lo, up, False))
+    rows = []
+    for (rn, s, rhs, rg, ent) in P["rows"]:
+        act = sum((v * xs[c] for c, v in ent), F(0))
+        t = F(rng.randint(0, 3))
+        if s == "L":
+            rows.append((rn, s, act + t, F(0), ent))
+        elif s == "G":
+            rows.append((rn, s, act - t, F(0), ent))
+        elif s == "E":
+            rows.append((rn, s, act, F(0), ent))
+        else:
+            rows.append((rn, s, act - t, t + rng.randint(0, 3), ent))
+    return dict(P, cols=cols, rows=rows)
